@@ -41,7 +41,9 @@ OPEN += [
 
 # (property, repo commit, what failed, signatures the check printed on the pre-fix tree)
 FIXED = [
-    ("C06", "7361bba", "Driver(seed=0) replaced the seed by a random one: two runs with seed=0 diverged", []),
+    ("C06", "7361bba", "Driver(seed=0) replaced the seed by a random one: two runs with seed=0 diverged",
+     ["C06|same_seed_different_trajectory|driver=Canonical|seed=zero|first_diff=verdict",
+      "C06|same_seed_different_trajectory|driver=ForceBias|seed=zero|first_diff=state"]),
     ("C02", "43a93b0", "OverflowError from math.exp on strongly favourable trials in all five criteria",
      ["C02|criteria_raised|type=OverflowError|driver=Canonical", "C02|criteria_raised|type=OverflowError|driver=GrandCanonical",
       "C02|criteria_raised|type=OverflowError|driver=HamiltonianCanonical", "C02|criteria_raised|type=OverflowError|driver=Isobaric",
@@ -56,7 +58,9 @@ FIXED = [
      ["C05|labels_length_mismatch|labels_of=DisplacementMove|driver=GrandCanonical|move=exch"]),
     ("C03", "1e8f889", "FixAtoms indices stayed shifted after a rejected deletion",
      ["C03|state_changed_by_nonaccepted_trial|component=constraints|driver=GrandCanonical|move=exch|verdict=False|constraints=FixAtoms"]),
-    ("C15", "359d328", "run(0) followed by run(n) repeated the log header and the step-0 observer call", []),
+    ("C15", "359d328", "run(0) followed by run(n) repeated the log header and the step-0 observer call",
+     ["C15|split_run_differs|driver=Isobaric|split=zero_first|what=file:logfile",
+      "C15|split_run_differs|driver=GrandCanonical|split=zero_first|what=observer_calls"]),
     ("C20", "f54fa68", "no driver ever delivered on_cell_changed",
      ["C20|cell_change_not_notified|driver=Isobaric", "C20|cell_change_not_notified|driver=Isotension"]),
     ("C07", "1d8072d", "restart file written through MonteCarlo.to_dict (alias bound at class creation): subclass settings missing, Isobaric/Isotension.from_dict TypeError; ForceBias could not be written", []),
